@@ -44,6 +44,9 @@ CHECKS = {
 
  'C09': ('Q3 two-way embeddings under the relabelling of variable keys between a renamed/permuted portfolio and the baseline; Q1 equality of reported tables up to relabelling', '6 C09',
          'For adversarial namings (numeric, prefix/suffix, separators, swapped, spaces, longer out-node name, 2-digit index collisions) and asset orders (all 24 in the thorough tier), one- and two-node storage and a LinkedAsset referenced by name: feasible set, value and every reported dispatch/DCF/storage cell coincide with the baseline for all parameter values, prices and feasible points. Names come from a fixed list (structure), numbers are symbolic.'),
+
+ 'C10': ('bounded exhaustive enumeration of call histories on shared objects, each decided by Q2 term-by-term equality of the lifted final problem with a fresh object\'s problem (symbolic data); cache poisoning', '6 C10',
+         'All histories up to length 1 (quick) / 2 (thorough) over 8 operations x 5 final set-ups x 3 portfolios (interval dictionaries with/without end, take dictionaries, own frequency/window/wacc, scaled and structured wrappers, order book): the final problem equals the fresh one for all parameter values and prices, no later call crashes, and no result depends on a cache an earlier call left on the grid. Histories are enumerated (bounded), data are symbolic.'),
 }
 NA = {}
 props = [json.loads(l) for l in open(os.path.join(ROOT, 'properties.jsonl'))]
